@@ -627,9 +627,16 @@ func c05Scenarios(tier string) []*ConcScenario {
 		)
 	}
 	var scs []*ConcScenario
-	for _, c := range cfgs {
-		for _, in := range inits {
-			for _, pr := range pairs {
+	if tier == "quick" {
+		// the other primary, immutable mode and one-record files on a subset
+		cfgs = append(cfgs, cfg("cid", false, 8, 48, bigFile), cfg("mh", true, 8, 48, 48), cfg("mh", false, 8, 1, 1))
+	}
+	for ci, c := range cfgs {
+		for ii, in := range inits {
+			for pi, pr := range pairs {
+				if tier == "quick" && ci > 0 && (ii%2 != ci%2 || pi%3 != ci%3) {
+					continue
+				}
 				for _, withFlush := range []bool{false, true} {
 					ths := append([][]Op{}, pr...)
 					if withFlush {
